@@ -1267,6 +1267,12 @@ func (ex *Exec) checkRefinement(st *State, outer *Env, kc0 *Contract, fval ssa.V
 			if strings.HasPrefix(item, "fields[") && allowsRegion {
 				continue // a type-level footprint the callee contract grants as well
 			}
+			if strings.HasPrefix(item, "mapcells(") && allowsCaptures {
+				continue // a map the closure owns since it was made (see MakeClosure)
+			}
+			if isGhostName(item) || strings.Contains(item, ".Ghost") {
+				continue // ghost state
+			}
 			if !(isCap && allowsCaptures) {
 				ex.abort("refinement of %s by %s: the function assigns %s, which the callee contract does not allow", kc0.Target, fc.Name, item)
 			}
@@ -1349,6 +1355,17 @@ func (ex *Exec) checkRefinement(st *State, outer *Env, kc0 *Contract, fval ssa.V
 		}
 		fe.old = outer.cur
 		fe.cur = post
+		// the ghost updates the closure's contract performs at its return
+		if len(fc.GReturn) > 0 {
+			saved := st.heap
+			st.heap = post
+			for _, g := range fc.GReturn {
+				ex.ghostUpdate(st, fe, g)
+			}
+			post = st.heap
+			st.heap = saved
+			fe.cur = post
+		}
 		for _, ke := range kes {
 			ke.old = outer.cur
 			ke.cur = post
@@ -1356,7 +1373,7 @@ func (ex *Exec) checkRefinement(st *State, outer *Env, kc0 *Contract, fval ssa.V
 	}
 	for ki, kc := range kcs {
 		for _, cl := range kc.Ensures {
-			if strings.HasPrefix(cl.Label, "ghost") {
+			if strings.HasPrefix(cl.Label, "ghost") && len(fc.GReturn) == 0 {
 				continue // clauses that define ghost state in terms of the call itself (traces): nothing for real code to establish
 			}
 			kpost = append(kpost, kes[ki].eval(cl.Expr))
@@ -1489,8 +1506,8 @@ func (ex *Exec) closureRequiresAtMake(st *State, mc *ssa.MakeClosure) {
 		for _, c := range cs {
 			mentions := false
 			ast.Inspect(c, func(n ast.Node) bool {
-				if id, ok := n.(*ast.Ident); ok && params[id.Name] {
-					mentions = true
+				if id, ok := n.(*ast.Ident); ok && (params[id.Name] || isGhostName(id.Name)) {
+					mentions = true // parameters and ghost state are known at the call, not when the closure is made
 				}
 				return true
 			})
